@@ -7,13 +7,13 @@ from common import run_model
 
 ID = "C11"
 LEVEL = "other"
-GEN = ["TmplGen", "UtilGen", "CodeGen"]
+GEN = ["TmplGen", "UtilGen", "CodeGen", "RxGen", "UnicodeGen", "InlineGen", "BlockGen", "NormalizeGen"]
 COQ = ["Props/C11.vo"]
 EXPLANATION = (
     "PARTIAL proof + oracle. Proved (coq/Props/C11.v): the block_code and codespan templates regenerated from the renderer "
     "are, for every shape, a fixed frame around exactly one insertion escape(raw), and html.unescape of that piece is raw "
     "(all strings, via the C18 round trip), with no markup of its own; the code-span post-processing equals the documented "
-    "rule (newline to space; one space trimmed at both ends unless all white space). The extraction of fenced and indented "
+    "rule (newline to space; one space trimmed at both ends unless all white space); on the block parser model (coq/Model/Block.v, tied by skeletons, BlockGen and a token-tree correspondence run) the raw text of a fenced block is a contiguous slice of the source, with at most the fence indentation removed per line when the fence is indented (C11_fenced_raw_is_a_source_slice). The extraction of fenced and indented "
     "code at top level and inside quotes / list items / quote-in-list (fence search, indentation and prefix removal) is "
     "decided by the oracle on generated bodies x fences x containers, with the token raw and the unescaped HTML both "
     "compared with the body; the control skeletons of the five functions involved are tied to committed skeletons.")
@@ -202,7 +202,10 @@ def correspondence(ctx):
             iv = "EXC:%s" % type(e).__name__
         if iv is not None and iv != mv:
             dis.append({"input": c, "model": mv, "impl": iv})
-    return {"evaluations": len(cases), "disagreements": dis[:20], "samples": [json.dumps(cases[0])]}
+    import corr_block
+    b = corr_block.run(ctx, ctx.n(1200, 20000))
+    return {"evaluations": len(cases) + b["evaluations"], "disagreements": (dis + b["disagreements"])[:20], "samples": [json.dumps(cases[0])],
+            "parts": {"code span rule": len(cases), "block parser model": b["evaluations"]}}
 
 
 def oracle(ctx, extra):
